@@ -15,6 +15,8 @@ structure Attrs where
   comment : Bool := false
   multiline : Bool := false
   flavor : Bool := false
+  /-- Preorder number of the node in the tree being printed (identity of the node, cf. the span). -/
+  id : Nat := 0
 deriving Repr, Inhabited, DecidableEq
 
 /-- Tree annotated with the attributes `AttrStore` keeps per span (spans are unique per node). -/
@@ -131,6 +133,31 @@ def annotateKids (under disableNext commented : Bool) : List Node → List ANode
     else
       let r := annotateKids under disableNext commented rest
       (annotate false c :: r.1, r.2)
+end
+
+mutual
+/-- Number the nodes in preorder, starting at `next`; returns the next free number. -/
+def number : ANode → Nat → ANode × Nat
+  | .leaf k t a, next => (.leaf k t { a with id := next }, next + 1)
+  | .inner k cs a, next =>
+    let r := numberL cs (next + 1)
+    (.inner k r.1 { a with id := next }, r.2)
+def numberL : List ANode → Nat → List ANode × Nat
+  | [], next => ([], next)
+  | c :: cs, next =>
+    let r := number c next
+    let rs := numberL cs r.2
+    (r.1 :: rs.1, rs.2)
+end
+
+mutual
+/-- Number of nodes. -/
+def ANode.size : ANode → Nat
+  | .leaf _ _ _ => 1
+  | .inner _ cs _ => 1 + ANode.sizeL cs
+def ANode.sizeL : List ANode → Nat
+  | [] => 0
+  | c :: cs => ANode.size c + ANode.sizeL cs
 end
 
 /-! ### casts of `typst_syntax::ast` -/
